@@ -774,6 +774,25 @@ Definition tr_ReadBytes (data : (list N)) (len : Z) (require : bool) (rd : go_re
     let '(rd, data, _, err) := (go_rd_readfull data rd) in
     Return (rd, data, err)) else Panic).
 
+(* tars/servant.go: func ServantProxy.genRequestID, statements "^" .. "atomic.CompareAndSwapInt32(&msgID, maxInt32, 1)" *)
+Definition tr_genRequestID_cas (maxInt32 : Z) (rd : Z) : ctl Z (Z * Z) :=
+  let '(rd, _) := (go_atomic_cas32 maxInt32 1 rd) in
+    Next rd.
+
+(* tars/servant.go: func ServantProxy.genRequestID, statements "for {" .. "for {" *)
+Fixpoint tr_genRequestID_loop (fuel : nat) (rd : Z) {struct fuel} : ctl Z (Z * Z) :=
+  match fuel with O => Panic | S fuel =>
+  go_iter (let '(rd, v) := (go_atomic_add32 1 rd) in
+      bindc (if (negb (v =? 0))
+        then Return (inr (rd, v))
+        else Next rd)
+      (fun rd : Z =>
+      Next rd))
+    (fun rd : Z =>
+    Next rd)
+    (fun rd : Z => tr_genRequestID_loop fuel rd)
+  end.
+
 (* struct github.com/TarsCloud/TarsGo/tars/protocol/res/endpointf.EndpointF *)
 Record go_endpointf_EndpointF := { go_endpointf_EndpointF_Host : (list N);
   go_endpointf_EndpointF_Port : Z;
